@@ -29,6 +29,7 @@ def Status.name : Status → String
   | .BadSecureChannelIdInvalid => "BadSecureChannelIdInvalid"
   | .BadUserAccessDenied => "BadUserAccessDenied"
   | .BadIdentityTokenInvalid => "BadIdentityTokenInvalid"
+  | .BadTcpEndpointUrlInvalid => "BadTcpEndpointUrlInvalid"
 
 def showOut : Out → String
   | .created k r => s!"ok {k} f{hex16 r}"
@@ -38,6 +39,7 @@ def showOut : Out → String
   | .readv v => s!"ok read {v}"
   | .browsed => "ok browse"
   | .subscribed n => s!"ok sub {n}"
+  | .served k => s!"ok other {k}"
   | .discovered => "ok"
   | .done => "ok"
   | .fault e => "err " ++ e.name
@@ -50,6 +52,10 @@ def parseOp? : List String → Option Op
   | ["create", f] => (parseF? f).map .create
   | ["activate", t, c] => do some (.activate (← parseTok? t) (← parseCred? c))
   | ["close", t] => (parseTok? t).map .close
+  | ["close", t, _] => (parseTok? t).map .close     -- delete_subscriptions flag: the code ignores it
+  | ["createx", _] => some .createBadUrl
+  | ["svc", t, "other", k] => do some (.service (← parseTok? t) (.other (← k.toNat?)))
+  | ["disc", _] => some .discovery
   | ["svc", t, "write", x] => do some (.service (← parseTok? t) (.write (← x.toNat?)))
   | ["svc", t, "read"] => (parseTok? t).map (.service · .read)
   | ["svc", t, "browse"] => (parseTok? t).map (.service · .browse)
@@ -59,6 +65,81 @@ def parseOp? : List String → Option Op
   | ["elapse", ms] => ms.toNat?.map .elapse
   | _ => none
 
+/-! ### arm tags (which branch of the model an op took; see GUIDE "Arm coverage") -/
+
+def tokKind (s : St) : Tok → String
+  | .foreign => "foreign"
+  | .num 0 => "null"
+  | .num n =>
+    if n > s.issued then "unissued"
+    else if (s.sessions.any (fun x => x.token == n)) then "registered" else "closed"
+
+/-- where the idle time of a session stands relative to its timeout -/
+def idleKind (x : Sess) : String :=
+  let f := F.ofBits x.timeout
+  if !f.gtNat 0 then "tmo-never"
+  else if f.ltNat x.idle then (if x.idle ≥ 1 && !f.ltNat (x.idle - 1) then "idle-just-over" else "idle-over")
+  else if f.ltNat (x.idle + 1) then "idle-at-limit"
+  else if x.idle = 0 then "idle-zero" else "idle-under"
+
+def timeoutKind (bits : Nat) : String :=
+  let f := F.ofBits bits
+  match f with
+  | .nan => "tmo-nan"
+  | .inf true => "tmo-neg-inf"
+  | .inf false => "tmo-pos-inf"
+  | .fin _ _ _ =>
+    if f.gtNat maxSessionTimeout then "tmo-gt-max"
+    else if !f.gtNat 0 then "tmo-nonpositive"
+    else if bits = maxSessionTimeoutBits then "tmo-eq-max"
+    else if f.gtNat 1 then "tmo-positive" else "tmo-le-1"
+
+def credName : Cred → String
+  | .anon => "anon" | .user => "user" | .badpw => "badpw" | .badpol => "badpol"
+
+def svcName : Svc → String
+  | .write _ => "write" | .read => "read" | .browse => "browse" | .sub => "sub"
+  | .other k => s!"other-{k}"
+
+def opTags (s : St) : Op → Out → List String
+  | .createBadUrl, _ => [if s.sessions.length ≥ maxSessions then "createx-at-limit" else "createx-bad-url"]
+  | .create bits, o =>
+    [timeoutKind bits,
+     if s.sessions.length + 1 < maxSessions then "create-len-lt-limit"
+     else if s.sessions.length + 1 = maxSessions then "create-len-reaches-limit" else "create-len-at-limit",
+     if o.isFault then "create-fault" else "create-ok"]
+  | .activate t c, o =>
+    match find s t with
+    | none => ["act-notfound-" ++ tokKind s t]
+    | some x =>
+      if timedOut x then ["act-timedout", "act-" ++ idleKind x]
+      else
+        ["act-cred-" ++ credName c, "act-" ++ idleKind x,
+         if x.activated then (if x.chan = s.chan then "act-again-same-chan" else "act-again-other-chan")
+         else (if x.chan = s.chan then "act-first-same-chan" else "act-first-other-chan"),
+         if o.isFault then (if x.activated then "act-fault-deactivates" else "act-fault") else "act-ok"]
+  | .close t, o =>
+    match find s t with
+    | none => ["close-notfound-" ++ tokKind s t]
+    | some x =>
+      [if x.activated then (if x.chan = s.chan then "close-activated-same-chan" else "close-activated-other-chan")
+       else (if x.chan = s.chan then "close-unactivated-same-chan" else "close-unactivated-other-chan"),
+       if timedOut x then "close-timedout" else "close-not-timedout",
+       if o.isFault then "close-fault" else "close-ok"]
+  | .service t svc, o =>
+    match find s t with
+    | none => ["svc-notfound-" ++ tokKind s t]
+    | some x =>
+      if !x.activated then ["svc-not-activated"]
+      else if x.chan != s.chan then ["svc-other-chan"]
+      else ["svc-" ++ idleKind x, if o.isFault then "svc-timedout" else "svc-ok-" ++ svcName svc]
+  | .discovery, _ => ["disc"]
+  | .setChan c, _ => [if c = s.chan then "setchan-same" else "setchan-other"]
+  | .elapse ms, _ => [if ms = 0 then "elapse-0" else if ms ≥ 2 ^ 40 then "elapse-huge" else "elapse-some"]
+
+def tagged (r : String) (tags : List String) : String :=
+  if tags.isEmpty then r else r ++ " @@ " ++ ",".intercalate tags
+
 def dstep (s : St) (toks : List String) : St × String :=
   match toks with
   | ["reset", c] =>
@@ -67,7 +148,7 @@ def dstep (s : St) (toks : List String) : St × String :=
     | none => (s, "bad-op")
   | _ =>
     match parseOp? toks with
-    | some op => let (s', o) := step s op; (s', showOut o ++ " | " ++ probe s')
+    | some op => let (s', o) := step s op; (s', tagged (showOut o ++ " | " ++ probe s') (opTags s op o))
     | none => (s, "bad-op")
 
 def driver : Driver := { σ := St, init := St.init 1, step := dstep }
